@@ -99,7 +99,7 @@ def PathInst.addRoutesBetter (P : PathInst) (pick : Nat → List Nat → Nat) (c
   | some cap, some init =>
     (List.range P.g.estimateMaxVehicles).foldl (fun (s : PathInst × List Nat × List (List Nat) × Nat) _ =>
       let (Q, unv, routes, c) := s
-      let (r, c') := genRoute Q.g cap pick (2 + Q.g.nodes.length) 0 0 0 init unv [0] c
+      let (r, c') := genRoute Q.g cap pick (2 + Q.g.nodes.length) 0 0 (Q.g.lo 0) init unv [0] c
       let a := Q.addRoute (r.map Stop.idx)
       match a.2 with
       | .ok (true, _) => (a.1, unv.filter (fun n => n = 0 ∨ n ∉ r), routes ++ [r], c')
